@@ -63,6 +63,9 @@ def check_statement(ctx, conn, q, style_name, style, label, hidden, mt=None):
         ctx.count('skipped.statement_rejected')
         return
     exp = expected_names(q, texts)
+    if desc is None:
+        ctx.violation('c07.description_missing', f'{label}/{style_name}: {text!r}: the statement was executed ({len(rows)} rows) and the cursor has no description (expected {exp})', case)
+        return
     names = [d.name for d in desc]
     nexpr = sum(1 for t in q.targets if t.alias is None and t.expr.kind != 'col')
     ctx.case(text, nexpr >= 1 or hidden >= 1)
